@@ -15,6 +15,9 @@ from .contract import Sym, SpecCtx, Outcome, run_callable, set_options, _drain, 
 from .interp import PyRaise, GenObj, Obj
 
 
+LAST_ALIAS = []
+
+
 def real_function(qualname):
     parts = qualname.split('.')
     mod = importlib.import_module('bitstring.' + parts[0]) if parts[0] != 'bitstring' else importlib.import_module('bitstring')
@@ -56,13 +59,60 @@ def _canon_model(interp, v):
     return concrete.canon_model(interp, v)
 
 
+def real_alias_facts(result, args, kwargs):
+    """the ownership predicate of contract.alias_goals evaluated on real objects"""
+    import bitstring, bitarray
+    objs = []
+
+    def collect(v, depth=0):
+        if isinstance(v, bitstring.Bits):
+            if all(v is not o for o in objs):
+                objs.append(v)
+        elif isinstance(v, bitstring.Array):
+            collect(v.data, depth + 1)
+        elif isinstance(v, (list, tuple)) and depth < 3:
+            for x in v:
+                collect(x, depth + 1)
+    collect(result)
+    for a in list(args) + list(kwargs.values()):
+        collect(a)
+    bad = []
+    mut = lambda o: isinstance(o, bitstring.BitArray)
+    for i, a in enumerate(objs):
+        sa = getattr(a, '_bitstore', None)
+        if sa is None:
+            continue
+        if mut(a) and sa.immutable:
+            bad.append('own:mutable-object-holds-a-store-flagged-immutable')
+        for b in objs[i + 1:]:
+            sb = getattr(b, '_bitstore', None)
+            if sb is None or not (mut(a) or mut(b)):
+                continue
+            if sa is sb:
+                bad.append('own:store-shared-with-a-mutable-object')
+            elif sa._bitarray is sb._bitarray:
+                bad.append('own:buffer-shared-with-a-mutable-object')
+    for r in [result] + list(args) + list(kwargs.values()):
+        if isinstance(r, bitarray.bitarray):
+            for a in objs:
+                if getattr(a, '_bitstore', None) is not None and a._bitstore._bitarray is r:
+                    bad.append('own:raw-buffer-of-a-bitstring-exposed-or-adopted')
+    return bad
+
+
 def run_real(contract, shape, vals):
-    fn = real_function(contract.qualname)
+    fn = real_function(contract.target)
     args, kwargs = shape.real(vals)
     set_real_options(shape.opts)
+    global LAST_ALIAS
+    LAST_ALIAS = []
     try:
         try:
             r = fn(*args, **kwargs)
+            try:
+                LAST_ALIAS = real_alias_facts(r, args, kwargs)
+            except Exception:
+                LAST_ALIAS = []
             if hasattr(r, '__next__'):
                 r = ('gen', list(r))
             out = ('ret', _canon_real(r))
@@ -81,7 +131,7 @@ def run_model(interp, contract, shape, vals, which):
     set_options(interp, shape.opts)
     try:
         if which == 'body':
-            fn = interp.lookup_qualname(contract.qualname)
+            fn = interp.lookup_qualname(contract.target)
             saved = interp.contracts
             interp.contracts = {}
             try:
@@ -131,6 +181,10 @@ def replay(interp, contract, shape, vals):
         info.update(reproduced=None, reason='building real inputs failed: ' + repr(e))
         return info
     info['real_outcome'] = _jsonable(real_out)
+    if LAST_ALIAS:
+        info['real_aliasing'] = LAST_ALIAS
+        info['reproduced'] = True
+        return info
     try:
         if contract.spec is not None:
             spec_out, spec_state, _ = run_model(interp, contract, shape, vals, 'spec')
